@@ -112,6 +112,25 @@ package httpserver
 //@   ensures [streaming_body_goes_to_the_client] rb.stream ==> (directCopies == old(directCopies) + 1 && bufferedCopies == old(bufferedCopies))
 //@   ensures [buffered_body_goes_to_the_buffer] !rb.stream ==> (bufferedCopies == old(bufferedCopies) + 1 && directCopies == old(directCopies))
 
+//@ unit redirect_site frames=on props=C15 filter=`httpserver\.redirPlaintextHost$`
+//@ // the synthesised HTTP site answers for the WHOLE host on the HTTP port (no path: every plaintext request to that host is
+//@ // redirected, with its own URI), carries exactly the redirect middleware, and shares the HTTPS site's certificate manager
+//@ extern strconv.Itoa
+//@   pure
+//@ extern net.JoinHostPort
+//@   pure
+//@ extern github.com/tmpim/casket.Started
+//@ extern fmt.Println
+//@ func redirPlaintextHost
+//@   requires cfg != nil && cfg.TLS != nil
+//@   ensures [same_host] result != nil && result.Addr.Host == cfg.Addr.Host
+//@   ensures [http_port] result.Addr.Port == strconv.Itoa(certmagic.HTTPPort)
+//@   ensures [whole_host_no_path] result.Addr.Path == "" && result.Addr.Scheme == ""
+//@   ensures [keyed_by_host_and_port] result.Addr.Original == net.JoinHostPort(cfg.Addr.Host, strconv.Itoa(certmagic.HTTPPort))
+//@   ensures [only_the_redirect_middleware] len(result.middleware) == 1
+//@   ensures [same_listen_host_and_manager] result.ListenHost == cfg.ListenHost && result.TLS != nil && result.TLS.Manager == cfg.TLS.Manager
+//@   ensures [fresh_site] fresh(result)
+
 //@ unit redirect_handler frames=on props=C15 filter=`httpserver\.redirPlaintextHost\$1\$1$`
 //@ // the handler of a synthesised HTTP site: a permanent redirect to https on the same host (port stripped, the configured
 //@ // HTTPS port appended unless it is the default), same request URI (escaped path and query exactly as received)
